@@ -116,6 +116,14 @@ partial def loop (h out : IO.FS.Stream) (s : Sess) : IO Unit := do
     let (s', o) := evalLine s input alnum ws
     out.putStrLn o
     loop h out s'
+  | ["name", n] =>
+    let name := unhex n
+    let v := s.ctx.lookup name
+    let c := s.ctx.canonicalize name
+    let vc := c.bind s.ctx.lookup
+    let f := fun (x : Option Number) => match x with | some x => fmtNumber x | none => "none"
+    out.putStrLn s!"{f v} ; {match c with | some c => hex c | none => "none"} ; {f vc}"
+    loop h out s
   | ["reset"] =>
     out.putStrLn "ok"
     loop h out { s with ctx := { s.ctx with previous := none, saveAns := true } }
